@@ -14,7 +14,12 @@ import (
 	"github.com/thanos-io/thanos/pkg/receive"
 	"github.com/thanos-io/thanos/pkg/store/labelpb"
 	"github.com/thanos-io/thanos/pkg/store/storepb/prompb"
+	"github.com/thanos-io/thanos/verifx/kit"
 )
+
+// fixedInputs says whether the fixed table inputs of a property run (VERIF_N_<id>FIXED=0 turns them
+// off, used to measure the sensitivity of the generated cases alone).
+func fixedInputs(id string) bool { return kit.Scale(id+"FIXED", 1, 1) != 0 }
 
 // ringBuild builds a multi-hashring with ONE default (tenant-less) hashring over a private copy of eps
 // (newSimpleHashring sorts the slice it is given in place, so the caller's slice must not be shared).
